@@ -1607,6 +1607,72 @@ async fn emit_event(
     let _ = event_log.append(&event);
 }
 
+/// Verification export (feature `verif`): compile the context for a run exactly as `run_session`
+/// does and, when `append` is set, log the selection decision and the compiled frame the same way.
+#[cfg(feature = "verif")]
+pub(crate) fn verif_compile_context_for_run(
+    continuities: &ContinuityStore,
+    event_log: &EventLog,
+    snapshot_dir: &Path,
+    run: &ContinuityRunLink,
+    run_session_id: &str,
+    append: bool,
+) -> Result<Value, String> {
+    let outcome =
+        compile_context_bundle_for_run(continuities, event_log, snapshot_dir, run, run_session_id)?;
+    let ContextCompileOutcomeForRun { decision, compiled } = outcome;
+    let value = serde_json::json!({
+        "decision": {
+            "compiler_id": decision.compiler_id.clone(),
+            "compiler_strategy": decision.compiler_strategy.clone(),
+            "limits": decision.limits.clone(),
+            "compaction_checkpoint": decision.compaction_checkpoint.clone(),
+            "compaction_checkpoints": decision.compaction_checkpoints.clone(),
+            "resets": decision.resets.clone(),
+            "reason": decision.reason.clone(),
+        },
+        "compiled": {
+            "bundle_artifact_id": compiled.bundle_artifact_id.clone(),
+            "from_seq": compiled.from_seq,
+            "from_message_id": compiled.from_message_id.clone(),
+            "items": compiled.items.iter().map(|item| item.value().clone()).collect::<Vec<_>>(),
+        },
+    });
+    if append {
+        let compiler_strategy = decision.compiler_strategy.clone();
+        continuities.append_context_selection_decided(
+            &run.continuity_id,
+            ContextSelectionDecidedPayload {
+                run_session_id: run_session_id.to_string(),
+                message_id: run.message_id.clone(),
+                compiler_id: decision.compiler_id,
+                compiler_strategy,
+                limits: decision.limits,
+                compaction_checkpoint: decision.compaction_checkpoint,
+                compaction_checkpoints: decision.compaction_checkpoints,
+                resets: decision.resets,
+                reason: decision.reason,
+                actor_id: run.actor_id.clone(),
+                origin: run.origin.clone(),
+            },
+        )?;
+        continuities.append_context_compiled(
+            &run.continuity_id,
+            ContextCompiledPayload {
+                run_session_id: run_session_id.to_string(),
+                bundle_artifact_id: compiled.bundle_artifact_id,
+                compiler_id: CONTEXT_COMPILER_ID_V1.to_string(),
+                compiler_strategy: decision.compiler_strategy,
+                from_seq: compiled.from_seq,
+                from_message_id: compiled.from_message_id,
+                actor_id: run.actor_id.clone(),
+                origin: run.origin.clone(),
+            },
+        )?;
+    }
+    Ok(value)
+}
+
 #[cfg(test)]
 mod tests {
     use super::*;
